@@ -1,5 +1,5 @@
 (* C12 - Size and range limits are exact; accepted values are never altered to fit. *)
-From Ctap Require Import Base Schema Wire Utf8 Typed WellTyped Procs Inst Tables Limits WireP TypedP FramingP SerP RoundTripP ObRequestSide ObEnvRt FnShapes Shapes ObShapeStrings ObShapeFilters LimitsP Deps ObDeps.
+From Ctap Require Import Base Schema Wire Utf8 Typed WellTyped Procs Inst Tables Limits WireP TypedP FramingP SerP RoundTripP ObRequestSide ObEnvRt FnShapes Shapes ObShapeStrings ObShapeFilters LimitsP Deps ObDeps ObShapeRequest.
 Local Open Scope string_scope.
 Local Open Scope Z_scope.
 
@@ -114,6 +114,10 @@ Proof. exact generated_shapes_filters. Qed.
 Theorem c12_modelled_dependencies_pinned : deps_hold lock_versions cargo_deps = true.
 Proof. exact generated_deps. Qed.
 
+(* further hand-modelled functions this property rests on *)
+Theorem c12_modelled_functions_unchanged_request : shapes_hold fn_shapes shapes_request = true.
+Proof. exact generated_shapes_request. Qed.
+
 Eval vm_compute in "ASSUMPTIONS c12_limits_generated". Print Assumptions c12_limits_generated.
 Eval vm_compute in "ASSUMPTIONS c12_limits_spec". Print Assumptions c12_limits_spec.
 Eval vm_compute in "ASSUMPTIONS c12_bytes_exact". Print Assumptions c12_bytes_exact.
@@ -132,3 +136,4 @@ Eval vm_compute in "ASSUMPTIONS c12_modelled_functions_unchanged_filters". Print
 Eval vm_compute in "ASSUMPTIONS c12_accepted_is_within_limits". Print Assumptions c12_accepted_is_within_limits.
 Eval vm_compute in "ASSUMPTIONS c12_accepted_is_within_limits_generic". Print Assumptions c12_accepted_is_within_limits_generic.
 Eval vm_compute in "ASSUMPTIONS c12_modelled_dependencies_pinned". Print Assumptions c12_modelled_dependencies_pinned.
+Eval vm_compute in "ASSUMPTIONS c12_modelled_functions_unchanged_request". Print Assumptions c12_modelled_functions_unchanged_request.
